@@ -132,6 +132,9 @@ func c01Gen(g *core.Gen, emit func(*p2Case)) {
 	for i, rc := range []scen.P2Config{{Sizes: []int{11, 6}, Slice: 4, Blocks: 3, Class: "uniq", Reused: true}, {Sizes: []int{20000, 17001}, Slice: 1000, Blocks: 3, Class: "uniq", G: 2, Reused: true}} {
 		genP2Deviations(g, rc, i == 0, 2-i, mk(rc, 1))
 	}
+	for _, rc := range []scen.P2Config{{Sizes: []int{11, 6}, Slice: 4, Blocks: 3, Class: "uniq", Reused: true, ReloadFails: true}, {Sizes: []int{9, 4, 13}, Slice: 4, Blocks: 5, Class: "uniq", Reused: true, ReloadFails: true}, {Sizes: []int{6, 13, 5, 9}, Slice: 4, Blocks: 4, Class: "uniq", Reused: true, ReloadFails: true}} {
+		genP2Deviations(g, rc, false, 1, mk(rc, 1))
+	}
 	// sets with more recovery blocks than a set can have slices (32768) and with the most a set can have (65535): both
 	// files lost, every recovery file but one lost too - for each choice of the surviving file (its lowest exponent is
 	// 0, 1, 3, 7, ..., 32767)
